@@ -430,6 +430,35 @@ def r01_10_routine_epilogue(ctx):
     ctx.require_min("R01.10", 6)
 
 
+def r01_11_loop_stack(ctx):
+    ctx.rule("R01.11", "CompileOptions keeps the pending Break/Continue blocks per loop nesting level with LIFO discipline: enterLoop pushes a fresh list on both stacks, registrations go to the innermost level ([-1]) of the matching stack, exitLoop pops the innermost level of both and returns (breaks, continues)")
+    c = ctx.model.find_class("CompileOptions", "pyteal.compiler.compiler")
+    stacks = {"break": "breakBlocksStack", "continue": "continueBlocksStack"}
+    meths = {"enterLoop": None, "addLoopBreakBlock": "break", "addLoopContinueBlock": "continue", "exitLoop": None}
+    for mname, which in meths.items():
+        m = q.need(c.methods.get(mname), f"CompileOptions.{mname} vanished")
+        ctx.analysed(m.fq)
+        subs = [n for n in walk_local(m.node) if isinstance(n, ast.Subscript) and isinstance(n.value, ast.Attribute) and n.value.attr in stacks.values()]
+        for sub in subs:
+            ctx.check(u(sub.slice) == "-1", "R01.11", f"CompileOptions.{mname}:innermost", f"`{u(sub)}`: the innermost loop is the last element ([-1])", f"{m.module.rel}:{sub.lineno}", fact={"index": u(sub.slice)})
+        pops = [x for x in q.calls_named(m.node, "pop") if isinstance(x.func.value, ast.Attribute) and x.func.value.attr in stacks.values()]
+        for p_ in pops:
+            ctx.check(not p_.args and mname == "exitLoop", "R01.11", f"CompileOptions.{mname}:pop-last", f"`{u(p_)}`: only exitLoop may pop, and it pops the last level", f"{m.module.rel}:{p_.lineno}", fact={})
+        apps = [x for x in q.calls_named(m.node, "append")]
+        if mname == "enterLoop":
+            tg = sorted(u(x.func.value) for x in apps)
+            ctx.check(tg == ["self.breakBlocksStack", "self.continueBlocksStack"] and all(u(x.args[0]) == "[]" for x in apps), "R01.11", "CompileOptions.enterLoop:push-both", f"enterLoop must push a fresh empty list on both stacks; it appends to {tg}", m.where, fact={"appends": tg})
+        elif which:
+            tg = [u(x.func.value) for x in apps]
+            ctx.check(tg == [f"self.{stacks[which]}[-1]"] and u(apps[0].args[0]) == m.params()[1], "R01.11", f"CompileOptions.{mname}:right-stack", f"{mname} must append its block to self.{stacks[which]}[-1]; it appends to {tg}", m.where, fact={"appends": tg})
+        else:
+            rets = q.returns_of(m.node)
+            ok = len(rets) == 1 and isinstance(rets[0].value, ast.Tuple) and [u(e) for e in rets[0].value.elts] == ["self.breakBlocksStack.pop()", "self.continueBlocksStack.pop()"]
+            ctx.check(ok, "R01.11", "CompileOptions.exitLoop:returns-breaks-continues", f"exitLoop must return (breaks, continues) popped from the two stacks; returns {[u(r.value) for r in rets]}", m.where, fact={})
+            ctx.check(not apps, "R01.11", "CompileOptions.exitLoop:no-append", "exitLoop must not push", m.where, fact={})
+    ctx.require_min("R01.11", 7)
+
+
 def run(ctx):
     r01_3_wiring(ctx)
     r01_1_operands(ctx)
@@ -439,6 +468,7 @@ def run(ctx):
     r01_7_replace_total(ctx)
     r01_8_api_ops(ctx)
     r01_10_routine_epilogue(ctx)
+    r01_11_loop_stack(ctx)
     return (
         "Def-use edge facts of every control construct's __teal__ compared with a reference lowering (R01.3); operand order/arity at "
         "emission sites and factories (R01.1); finite abstract evaluation of flattenBlocks' branch emission over all successor "
